@@ -126,9 +126,11 @@ ResultBad ==
               IN (IF R.count # want THEN {[prop |-> "C01", why |-> "READ count is not min(requested, transfer size, size - offset)"]} ELSE {})
                  \cup (IF R.dlen # R.count THEN {[prop |-> "C01", why |-> "READ data length differs from count"]} ELSE {})
                  \cup (IF R.count = want /\ R.data # ReadBytes(f.d, Cur.off, want) THEN {[prop |-> "C01", why |-> "READ returns bytes different from the file's"]} ELSE {})
-                 \cup (IF R.eof # (Cur.off + R.count >= f.sz) THEN {[prop |-> "C01", why |-> "READ eof flag wrong"]} ELSE {})
+                 \* (through the handle of a symbolic link the reply's attributes, and with them eof,
+                 \*  describe the link itself: READ of a non-regular object is "either", eof is left open)
+                 \cup (IF Kind(PreT, P) = "F" /\ R.eof # (Cur.off + R.count >= f.sz) THEN {[prop |-> "C01", why |-> "READ eof flag wrong"]} ELSE {})
          [] Cur.proc = "READ" /\ Cur.offc # "small" /\ Kind(PreT, ReadObj) = "F" /\ ~PreT[ReadObj].szbig ->
-              IF R.count # 0 \/ ~R.eof THEN {[prop |-> "C01", why |-> "READ far beyond EOF must return no data and eof"]} ELSE {}
+              IF R.count # 0 \/ (Kind(PreT, P) = "F" /\ ~R.eof) THEN {[prop |-> "C01", why |-> "READ far beyond EOF must return no data and eof"]} ELSE {}
          [] OTHER -> {}
 
 StatusBad ==
